@@ -17,6 +17,7 @@ import numpy as np
 from mc import core, explore, gen
 from mc import harness as H
 from mc.ref import dataset as RD
+from mc.ref import calendar as cal
 from checks import common_data as CD
 
 PID = "C01"
@@ -247,6 +248,11 @@ def h_dev(ctx):
         ov = sorted(set(obsv.values()))
         kw["obs_range"] = [ov[1], ov[-2]]          # the smallest and the largest observation fall outside
         ctx.flag("obsrange")
+    # -d (the last day, or every day): applied to the common times; every input is then read at ITS OWN positions of those times
+    dsel = ctx.choose("-d", ("none", "last-day", "all-days"))
+    if dsel != "none":
+        kw["dates"] = [cal.unixtime_to_date(t) for t in (times[-1:] if dsel == "last-day" else times)]
+        ctx.flag("dates")
     try:
         ref = RD.RefData(inputs, clim=clim, clim_type=clim_mode if clim else "subtract", **kw)
     except RD.RefError:
@@ -259,6 +265,15 @@ def h_dev(ctx):
         return
     if kind != "ok":
         ctx.fail("data-%s:%s" % (kind, site), stdout=out[-200:])
+        return
+    if not ref.T:
+        # -d left no common time: not an error, but no input may be given a number (the shape of an empty answer is not specified)
+        for i in range(n):
+            kind2, res, site2, _ = CD.get_scores(data, ["obs", "fcst"], i, "no", 0)
+            if kind2 == "ok":
+                ctx.require(not any(np.isfinite(np.asarray(a, dtype=float)).any() for a in res), "dev:empty-times-gives-numbers", input=i)
+        ctx.outcome("empty-times")
+        ctx.observe(("empty-times",))
         return
     # a threshold no file stores: its probability comes from the ensemble, and a case where one file has no member is missing for all
     ev = sorted(v for ai in inputs for v in ai.fields["e0"].values() if not gen.is_missing(v))
